@@ -32,6 +32,13 @@ def RulesInnermost (sites : List (String × String × String × String × List (
 
 theorem rules_lock_is_innermost : RulesInnermost Gen.lockSites = true := by decide
 
+/-- the two registry locks nest in one order only: the history list `terminated` first, then `alive` (the collector's
+    order) — nowhere is `alive` held while `terminated` is awaited -/
+def RegistryOrder (sites : List (String × String × String × String × List (String × Gen.AwaitClass))) : Bool :=
+  sites.all (fun s => s.2.2.1 != "alive" || s.2.2.2.2.all (fun a => a.2 != Gen.AwaitClass.lockTerminated))
+
+theorem registry_locks_nest_in_one_order : RegistryOrder Gen.lockSites = true := by decide
+
 /-! ### the discipline and what it gives, for every program and every state -/
 
 private theorem wellLocked_held (held : List Nat) (p : Prog) (h : wellLocked held p = true) (k : Nat) :
@@ -90,13 +97,13 @@ theorem finished_holds_nothing (t : Task) (h : wellLocked [] t.prog = true) (hd 
 /-- **no deadlock among the others**: in any state in which no lock has two holders, if some task is blocked then
     some task that holds a lock is neither blocked, nor in an external wait, nor finished — it can take its next
     step.  (Proof: follow the wait-for chain; each holder that is itself blocked asks for a lock of strictly higher
-    rank, and there are only three ranks.) -/
+    rank, and there are only four ranks.) -/
 theorem blocked_implies_runnable_holder (sys : List Task) (hwl : ∀ t ∈ sys, wellLocked [] t.prog = true)
     (t : Task) (ht : t ∈ sys) (hb : blocked sys t = true) :
     ∃ u ∈ sys, u.held ≠ [] ∧ blocked sys u = false ∧ u.next ≠ some .ext ∧ u.next ≠ none := by
-  have hr : ∀ l, rank l ≤ 2 := by intro l; unfold rank; split <;> (try split) <;> omega
-  -- follow the wait-for chain upwards in rank; it can climb at most twice
-  have key : ∀ (n : Nat) (t : Task), t ∈ sys → blocked sys t = true → ∀ l, t.next = some (.acq l) → 2 < rank l + n →
+  have hr : ∀ l, rank l ≤ 3 := by intro l; unfold rank; split <;> (try split) <;> (try split) <;> omega
+  -- follow the wait-for chain upwards in rank; it can climb at most three times
+  have key : ∀ (n : Nat) (t : Task), t ∈ sys → blocked sys t = true → ∀ l, t.next = some (.acq l) → 3 < rank l + n →
       ∃ u ∈ sys, u.held ≠ [] ∧ blocked sys u = false ∧ u.next ≠ some .ext ∧ u.next ≠ none := by
     intro n
     induction n with
@@ -128,43 +135,53 @@ theorem blocked_implies_runnable_holder (sys : List Task) (hwl : ∀ t ∈ sys, 
   | some a =>
     cases a with
     | acq l =>
-      exact key 3 t ht (by simp only [blocked, List.any_eq_true]; exact ⟨u, hu, hbu⟩) l hn (by omega)
+      exact key 4 t ht (by simp only [blocked, List.any_eq_true]; exact ⟨u, hu, hbu⟩) l hn (by omega)
     | rel l => simp [blockedBy, hn] at hbu
     | ext => simp [blockedBy, hn] at hbu
     | step => simp [blockedBy, hn] at hbu
 
-/-! ### the programs of the proxy's tasks (locks: 0 = registry `alive`, 1 = rule list, 2+i = connection i) -/
+/-! ### the programs of the proxy's tasks (locks: 0 = registry `alive`, 1 = rule list, 2 = history list `terminated`, 3+i = connection i) -/
 /-- a listener accepting connection i with the repaired handshake: register (registry lock), then read the request
     WITHOUT the connection's lock, then store the result under it -/
-def handshakeProg (i : Nat) : Prog := [.acq 0, .step, .rel 0, .acq (2 + i), .step, .rel (2 + i), .ext, .acq (2 + i), .step, .rel (2 + i)]
+def handshakeProg (i : Nat) : Prog := [.acq 0, .step, .rel 0, .acq (3 + i), .step, .rel (3 + i), .ext, .acq (3 + i), .step, .rel (3 + i)]
 /-- as it was at the pinned commit: the request was read while the connection's lock was held -/
-def handshakeProgOld (i : Nat) : Prog := [.acq 0, .step, .rel 0, .acq (2 + i), .ext, .step, .rel (2 + i)]
+def handshakeProgOld (i : Nat) : Prog := [.acq 0, .step, .rel 0, .acq (3 + i), .ext, .step, .rel (3 + i)]
 /-- `GET /api/live` (repaired): copy the references under the registry lock, release it, then read each connection -/
-def apiLiveProg (n : Nat) : Prog := [.acq 0, .step, .rel 0] ++ (List.range n).flatMap (fun i => [.acq (2 + i), .step, .rel (2 + i)])
+def apiLiveProg (n : Nat) : Prog := [.acq 0, .step, .rel 0] ++ (List.range n).flatMap (fun i => [.acq (3 + i), .step, .rel (3 + i)])
 /-- as it was: every connection was read while the registry lock was held -/
-def apiLiveProgOld (n : Nat) : Prog := [.acq 0] ++ (List.range n).flatMap (fun i => [.acq (2 + i), .step, .rel (2 + i)]) ++ [.rel 0]
+def apiLiveProgOld (n : Nat) : Prog := [.acq 0] ++ (List.range n).flatMap (fun i => [.acq (3 + i), .step, .rel (3 + i)]) ++ [.rel 0]
 /-- routing and relaying connection i: rules under the read lock, then upstream connect and relay with no lock held -/
-def requestProg (i : Nat) : Prog := [.acq (2 + i), .acq 1, .step, .rel 1, .rel (2 + i), .acq (2 + i), .step, .rel (2 + i), .ext, .acq (2 + i), .step, .rel (2 + i), .ext]
+def requestProg (i : Nat) : Prog := [.acq (3 + i), .acq 1, .step, .rel 1, .rel (3 + i), .acq (3 + i), .step, .rel (3 + i), .ext, .acq (3 + i), .step, .rel (3 + i), .ext]
 def reloadProg : Prog := [.step, .acq 1, .step, .rel 1]
 
-theorem rank_ctx (i : Nat) : rank (2 + i) = 1 := by
+theorem rank_ctx (i : Nat) : rank (3 + i) = 2 := by
   unfold rank
-  have h0 : 2 + i ≠ 0 := by omega
-  have h1 : 2 + i ≠ 1 := by omega
-  simp [h0, h1]
+  have h0 : 3 + i ≠ 0 := by omega
+  have h1 : 3 + i ≠ 1 := by omega
+  have h2 : 3 + i ≠ 2 := by omega
+  simp [h0, h1, h2]
+
+/-- the collector's tick: the history list, then `alive` (moves the ended connections over) -/
+def gcProg : Prog := [.step, .acq 2, .acq 0, .step, .rel 0, .rel 2]
+/-- `GET /api/history`: the history list only; `GET /api/status`: no lock at all -/
+def historyProg : Prog := [.acq 2, .step, .rel 2]
+def statusProg : Prog := [.step]
+/-- a status handler that reports the sizes of both registry collections in one expression (`alive` is still held
+    while `terminated` is awaited): the shape seeded change C14c introduces -/
+def statusProgCounting : Prog := [.acq 0, .acq 2, .step, .rel 2, .rel 0]
 
 /-- the repaired programs respect the discipline (for every connection number) -/
 theorem programs_well_locked (i n : Nat) :
     wellLocked [] (handshakeProg i) = true ∧ wellLocked [] (requestProg i) = true ∧ wellLocked [] reloadProg = true ∧
     wellLocked [] (apiLiveProg n) = true := by
-  refine ⟨by simp [handshakeProg, wellLocked, rank_ctx, show rank 0 = 0 from rfl], by simp [requestProg, wellLocked, rank_ctx, show rank 1 = 2 from rfl], by decide, ?_⟩
+  refine ⟨by simp [handshakeProg, wellLocked, rank_ctx, show rank 0 = 1 from rfl], by simp [requestProg, wellLocked, rank_ctx, show rank 1 = 3 from rfl], by decide, ?_⟩
   simp only [apiLiveProg]
   have : ∀ (k : Nat) (r : Prog), wellLocked [] r = true →
-      wellLocked [] ((List.range' k n).flatMap (fun i => [Act.acq (2 + i), Act.step, Act.rel (2 + i)]) ++ r) = true := by
+      wellLocked [] ((List.range' k n).flatMap (fun i => [Act.acq (3 + i), Act.step, Act.rel (3 + i)]) ++ r) = true := by
     induction n with
     | zero => intro k r h; simpa using h
     | succ n ih => intro k r h; simp [List.range'_succ, wellLocked, rank_ctx, ih (k + 1) r h]
-  simpa [wellLocked, rank_ctx, show rank 0 = 0 from rfl, List.range_eq_range'] using this 0 [] rfl
+  simpa [wellLocked, rank_ctx, show rank 0 = 1 from rfl, List.range_eq_range'] using this 0 [] rfl
 
 /-- the pinned code did not: the old handshake waits for the client with the connection's lock held, and the old
     `/api/live` then waits for that lock with the registry held — after which no listener can register a connection
@@ -175,6 +192,14 @@ theorem old_programs_block :
      let api : Task := { prog := apiLiveProgOld 1, pc := 1 }
      let fresh : Task := { prog := handshakeProgOld 1, pc := 0 }
      stalled.next = some .ext ∧ blockedBy api stalled = true ∧ blockedBy fresh api = true) := by decide
+
+/-- the collector and the API handlers respect the discipline; a status handler that holds `alive` while it awaits
+    `terminated` does not, and deadlocks with the collector (kernel-checked state: each holds what the other awaits) -/
+theorem registry_programs :
+    wellLocked [] gcProg = true ∧ wellLocked [] historyProg = true ∧ wellLocked [] statusProg = true ∧
+    wellLocked [] statusProgCounting = false ∧
+    blockedBy { prog := gcProg, pc := 2 } { prog := statusProgCounting, pc := 1 } = true ∧
+    blockedBy { prog := statusProgCounting, pc := 1 } { prog := gcProg, pc := 2 } = true := by decide
 
 /-! ### non-vacuity -/
 example : blocked [{ prog := handshakeProg 0, pc := 6 }, { prog := apiLiveProg 1, pc := 3 }] { prog := apiLiveProg 1, pc := 3 } = false := by decide
